@@ -340,7 +340,7 @@ def check(tier, seed):
         "zero_probes": zero,
     }
     assumptions = [
-        "sampling, not proof: histories <= 41 invocations, <= 3 threads, 5 hashing strategies x 64-bit keys",
+        "sampling, not proof: histories <= 41 invocations (1 process in 200: several hundred, over hundreds of distinct declarations), <= 3 threads, 5 hashing strategies x 64-bit keys",
         "per-process state other than the hash schedule is perturbed only in the cross-process stage: wall clock "
         "(through libc), cwd, environment; pid and address-space layout differ between any two processes anyway",
         "the induced-order reach measure assumes the values map is the map created after the feature map and one "
